@@ -380,7 +380,7 @@ PROPS["C18"] = {
             "with pauses 0-120 ms x origin script (response 0-140 kB, one write / small chunks / MSS-sized chunks, pauses, think time, closing "
             "before/inside/after a response) x client end (closes when complete / stays until quiescence) x start of the next client "
             "(immediately, +1 us .. +60 ms, at quiescence); stop() after the last client in 1/3 of the cases followed by a connect that must be refused. "
-            "Job 'cuts' enumerates no cut, every single cut and every pair of cuts of 15 fixed short streams (single, pipelined x2/x3, named, IPv6, "
+            "Job 'cuts' enumerates no cut, every single cut and every pair of cuts of 19 fixed short streams (single, pipelined x2/x3, named, IPv6, "
             "port 65535, default port v4/v6, refused x2, unresolvable x2, valid+malformed, valid+origin-form, port out of range), each followed by a "
             "second client. Non-trivial = every case (each runs at least one full client/proxy/origin exchange); distinct = distinct "
             "(descriptor, bytes received per client, who ended each connection).",
@@ -592,6 +592,10 @@ PROPS["C04"]["jobs"] += [
     {"name": "handler-monitors-over-resolver", "engine": "resolver", "prop": "C14", "mode": "random", "args": {"n": T(20000, 300000)}},
 ]
 
+# memory safety of close / destroy / move over the registry histories: after every few steps probes connect and send to every
+# endpoint that was ever bound, so an entry left pointing at a destroyed or moved-from object is dereferenced under ASan
+PROPS["C12"]["jobs"].append({"name": "sanitizers-over-registry-histories", "engine": "registry", "prop": "C11", "mode": "random", "args": {"n": T(12000, 200000)}})
+PROPS["C12"]["jobs"].append({"name": "sanitizers-over-moved-sockets", "engine": "tcp", "prop": "C05", "mode": "random", "args": {"n": T(400, 10000)}})
 PROPS["C11"]["jobs"].append({"name": "binding-epochs-over-udp-traffic", "engine": "udp", "prop": "C08", "args": {"n": T(1200, 40000)}})
 PROPS["C13"]["jobs"].append({"name": "mtu-through-nat", "engine": "tcp", "prop": "C20", "args": {"n": T(600, 20000)}})
 # bulk TCP with the connector behind a NAT and tail-dropping queues behind the NAT hop: a connection through a NAT has to
